@@ -763,6 +763,6 @@ func main() {
 		Run:         run,
 		MinEvals:    2000,
 		MinDistinct: 60,
-		Require:     []string{"blocks_applied", "blocks_reverted", "trace_uses_checked", "second_use_variants", "second_use_rejected"},
+		Require:     []string{"directed_legacy_alias_histories_run", "blocks_applied", "blocks_reverted", "trace_uses_checked", "second_use_variants", "second_use_rejected"},
 	})
 }
